@@ -357,14 +357,14 @@ Definition has_nullable_alt (g : cfg) (nl : list N) (v : N) : bool :=
 Definition nullable_sweep (g : cfg) (vars : list N) (nl : list N) : list N :=
   fold_left (cond_add (has_nullable_alt g)) vars nl.
 
-Definition nullable_step (g : cfg) (vars : list N) (nl : list N) : option (list N * bool) :=
+Definition nullable_round (g : cfg) (vars : list N) (nl : list N) : option (list N * bool) :=
   let nl' := nullable_sweep g vars nl in Some (nl', length nl <? length nl').
 
 (** The [HashSet] before it is drained into the [BTreeSet]. *)
 Definition nullable_raw (g : cfg) : option (list N) :=
   match nt_ordering g with
   | None => None
-  | Some vars => iter_until (S (length vars)) (nullable_step g vars) (nullable_seed g vars)
+  | Some vars => iter_until (S (length vars)) (nullable_round g vars) (nullable_seed g vars)
   end.
 
 Definition nullable_nts (g : cfg) : option (list N) := option_map to_set (nullable_raw g).
@@ -421,10 +421,10 @@ Qed.
 Definition nullable_I (g : cfg) (vars nl : list N) : Prop :=
   NoDup nl /\ incl nl vars /\ forall x, In x nl -> nullable g x.
 
-Lemma nullable_step_I g vars x x' c :
-  nullable_I g vars x -> nullable_step g vars x = Some (x', c) -> nullable_I g vars x'.
+Lemma nullable_round_I g vars x x' c :
+  nullable_I g vars x -> nullable_round g vars x = Some (x', c) -> nullable_I g vars x'.
 Proof.
-  intros (Hn & Hi & Hs) H. unfold nullable_step in H. inversion H; subst. unfold nullable_sweep.
+  intros (Hn & Hi & Hs) H. unfold nullable_round in H. inversion H; subst. unfold nullable_sweep.
   split; [apply cond_add_fold_NoDup; exact Hn|].
   split; [apply cond_add_fold_incl; [apply incl_refl|exact Hi]|].
   apply nullable_sweep_sound. exact Hs.
@@ -442,15 +442,14 @@ Theorem nullable_raw_exact g l :
 Proof.
   unfold nullable_raw. destruct (nt_ordering g) as [vars|] eqn:Ev; [|discriminate].
   intros H a.
-  destruct (iter_until_inv (nullable_I g vars) (nullable_step g vars)
-              (nullable_step_I g vars) _ _ _ (nullable_seed_I g vars) H)
+  destruct (iter_until_inv (nullable_I g vars) (nullable_round g vars)
+              (nullable_round_I g vars) _ _ _ (nullable_seed_I g vars) H)
     as (nl & (Hn & Hi & Hs) & Hstep).
-  unfold nullable_step in Hstep. inversion Hstep as [[Hl Hlen]]. rewrite Hl in Hlen.
+  unfold nullable_round in Hstep. injection Hstep as Hl Hlen.
   apply Nat.ltb_ge in Hlen.
   assert (Hfix : nullable_sweep g vars nl = nl).
-  { apply ext_same_length; [|rewrite Hl; exact Hlen].
-    apply fold_ext. apply cond_add_ext. }
-  rewrite Hl in Hfix. subst l.
+  { apply ext_same_length; [|exact Hlen]. apply fold_ext. apply cond_add_ext. }
+  subst l. rewrite Hfix.
   split; [apply Hs|]. intros Ha.
   destruct (nullable_closed_complete g nl) with (α := [NT a]) (w := @nil N) (s := NT a)
     as (b & Hb & Hin); auto.
@@ -469,7 +468,7 @@ Proof.
   destruct (nt_ordering g) as [vars|] eqn:Ev; [|tauto].
   split; [|discriminate]. intros H. exfalso.
   destruct (iter_until_terminates (nullable_I g vars) (@length N) (length vars)
-              (nullable_step g vars) (nullable_step_I g vars)) with
+              (nullable_round g vars) (nullable_round_I g vars)) with
       (fuel := S (length vars)) (x := nullable_seed g vars) as (y & Hy).
   - intros x (Hn & Hi & Hs). eexists _, _. split; [reflexivity|].
     intros Hc. apply Nat.ltb_lt in Hc. exact Hc.
@@ -497,3 +496,1354 @@ Proof.
   unfold nullable_nts. destruct (nullable_raw g); [|discriminate].
   intros H. inversion H. apply to_set_sorted.
 Qed.
+
+(** ** Productive non-terminals: [non_productive_non_terminals]
+
+    The Rust code builds, for the sorted vector [ns] of all non-terminals, one boolean
+    "transfer function" per non-terminal and iterates all of them simultaneously (Jacobi
+    style, each round reads only the previous vector) from the all-[false] vector until the
+    vector does not change. *)
+
+(** [non_terminal_index(nt)] ([position(..).unwrap()]) followed by [result_vector[index]]. *)
+Fixpoint lookup (ns : list N) (rv : list bool) (a : N) : option bool :=
+  match ns, rv with
+  | n :: ns', b :: rv' => if N.eqb n a then Some b else lookup ns' rv' a
+  | _, _ => None
+  end.
+
+(** [create_production_transfer_function]: short-cut conjunction, left to right, over the
+    non-terminals of one right-hand side. *)
+Fixpoint prod_tf (ns : list N) (rv : list bool) (r : list sym) : option bool :=
+  match r with
+  | [] => Some true
+  | T _ :: r' => prod_tf ns rv r'
+  | NT n :: r' =>
+      match lookup ns rv n with
+      | None => None
+      | Some false => Some false
+      | Some true => prod_tf ns rv r'
+      end
+  end.
+
+(** Short-cut disjunction, left to right, over the alternatives. *)
+Fixpoint alts_tf (ns : list N) (rv : list bool) (ps : list prod) : option bool :=
+  match ps with
+  | [] => Some false
+  | p :: ps' =>
+      match prod_tf ns rv (rhs p) with
+      | None => None
+      | Some true => Some true
+      | Some false => alts_tf ns rv ps'
+      end
+  end.
+
+Definition is_T (s : sym) : bool := match s with T _ => true | NT _ => false end.
+Definition sym_known (ns : list N) (s : sym) : bool :=
+  match s with NT n => mem n ns | T _ => true end.
+
+(** [combine_production_equation], applied to the current vector.  The third test models the
+    [unwrap] in [non_terminal_index], which the Rust code executes while it builds the closures
+    of the general case. *)
+Definition equation (g : cfg) (ns : list N) (rv : list bool) (a : N) : option bool :=
+  let ps := prods_of g a in
+  if is_nil ps then Some false
+  else if existsb (fun p => forallb is_T (rhs p)) ps then Some true
+  else if forallb (fun p => forallb (sym_known ns) (rhs p)) ps then alts_tf ns rv ps
+  else None.
+
+Fixpoint map_opt {A B} (f : A -> option B) (l : list A) : option (list B) :=
+  match l with
+  | [] => Some []
+  | x :: l' =>
+      match f x, map_opt f l' with
+      | Some y, Some ys => Some (y :: ys)
+      | _, _ => None
+      end
+  end.
+
+Fixpoint bools_eqb (a b : list bool) : bool :=
+  match a, b with
+  | [], [] => true
+  | x :: a', y :: b' => Bool.eqb x y && bools_eqb a' b'
+  | _, _ => false
+  end.
+
+(** One application of [step_function] and the comparison [new_result_vector == result_vector]. *)
+Definition prod_round (g : cfg) (ns : list N) (rv : list bool) : option (list bool * bool) :=
+  match map_opt (equation g ns rv) ns with
+  | None => None
+  | Some rv' => Some (rv', negb (bools_eqb rv' rv))
+  end.
+
+Definition productive_vector (g : cfg) : option (list bool) :=
+  let ns := nt_set g in
+  iter_until (S (length ns)) (prod_round g ns) (map (fun _ => false) ns).
+
+(** The non-terminals whose entry is [false], in the order of [ns]. *)
+Definition unproductive_nts (g : cfg) : option (list N) :=
+  match productive_vector g with
+  | None => None
+  | Some rv => Some (map fst (filter (fun nb => negb (snd nb)) (combine (nt_set g) rv)))
+  end.
+
+(** *** Proof: every vector that occurs is [map f ns] for a sound and expanding [f]. *)
+
+Definition sym_val (f : N -> bool) (s : sym) : bool := match s with NT n => f n | T _ => true end.
+
+Definition eqn_t (g : cfg) (f : N -> bool) (a : N) : bool :=
+  existsb (fun p => forallb (sym_val f) (rhs p)) (prods_of g a).
+
+Lemma lookup_map f ns a : In a ns -> lookup ns (map f ns) a = Some (f a).
+Proof.
+  induction ns as [|n ns IH]; intros H; [destruct H|]. simpl.
+  destruct (N.eqb_spec n a) as [->|Hne]; [reflexivity|].
+  destruct H as [H|H]; [congruence|apply IH; exact H].
+Qed.
+
+Lemma prod_tf_map f ns r :
+  (forall n, In (NT n) r -> In n ns) -> prod_tf ns (map f ns) r = Some (forallb (sym_val f) r).
+Proof.
+  induction r as [|s r IH]; intros H; [reflexivity|].
+  assert (Hr : forall n, In (NT n) r -> In n ns) by (intros n Hn; apply H; right; exact Hn).
+  destruct s as [t|n]; simpl; [apply IH; exact Hr|].
+  rewrite lookup_map by (apply H; left; reflexivity).
+  destruct (f n); simpl; [apply IH; exact Hr|reflexivity].
+Qed.
+
+Lemma alts_tf_map f ns ps :
+  (forall p n, In p ps -> In (NT n) (rhs p) -> In n ns) ->
+  alts_tf ns (map f ns) ps = Some (existsb (fun p => forallb (sym_val f) (rhs p)) ps).
+Proof.
+  induction ps as [|p ps IH]; intros H; [reflexivity|]. simpl.
+  rewrite prod_tf_map by (intros n Hn; apply (H p); [left; reflexivity|exact Hn]).
+  destruct (forallb (sym_val f) (rhs p)); simpl; [reflexivity|].
+  apply IH. intros q n Hq. apply H. right. exact Hq.
+Qed.
+
+Definition closed_ns (g : cfg) (ns : list N) : Prop :=
+  forall p n, In p (prods g) -> In (NT n) (rhs p) -> In n ns.
+
+Lemma nt_set_closed g : closed_ns g (nt_set g).
+Proof. intros p n Hp Hn. apply In_nt_set. eapply rhs_in_nts; eauto. Qed.
+
+Lemma equation_map g f ns a :
+  closed_ns g ns -> equation g ns (map f ns) a = Some (eqn_t g f a).
+Proof.
+  intros Hc. unfold equation, eqn_t.
+  destruct (prods_of g a) as [|p0 ps0] eqn:E; [reflexivity|]. rewrite <- E.
+  replace (is_nil (prods_of g a)) with false by (rewrite E; reflexivity).
+  destruct (existsb (fun p => forallb is_T (rhs p)) (prods_of g a)) eqn:Et.
+  - f_equal. symmetry. apply existsb_exists in Et as (p & Hp & Ht).
+    apply existsb_exists. exists p. split; [exact Hp|].
+    rewrite forallb_forall in Ht |- *. intros s Hs. specialize (Ht s Hs).
+    destruct s; [reflexivity|discriminate].
+  - assert (Hk : forall p n, In p (prods_of g a) -> In (NT n) (rhs p) -> In n ns).
+    { intros p n Hp. apply in_prods_of in Hp as [Hp _]. apply Hc. exact Hp. }
+    replace (forallb (fun p => forallb (sym_known ns) (rhs p)) (prods_of g a)) with true.
+    + apply alts_tf_map. exact Hk.
+    + symmetry. apply forallb_forall. intros p Hp. apply forallb_forall. intros s Hs.
+      destruct s as [t|n]; [reflexivity|]. simpl. apply mem_In. eapply Hk; eauto.
+Qed.
+
+Lemma map_opt_all {A B} (f : A -> option B) (h : A -> B) l :
+  (forall x, In x l -> f x = Some (h x)) -> map_opt f l = Some (map h l).
+Proof.
+  induction l as [|x l IH]; intros H; [reflexivity|]. simpl.
+  rewrite (H x (or_introl eq_refl)), IH; [reflexivity|]. intros y Hy. apply H. right. exact Hy.
+Qed.
+
+Lemma prod_round_map g f ns :
+  closed_ns g ns ->
+  prod_round g ns (map f ns) =
+  Some (map (eqn_t g f) ns, negb (bools_eqb (map (eqn_t g f) ns) (map f ns))).
+Proof.
+  intros Hc. unfold prod_round.
+  rewrite (map_opt_all _ (eqn_t g f)); [reflexivity|]. intros x _. apply equation_map. exact Hc.
+Qed.
+
+Lemma bools_eqb_eq a : forall b, bools_eqb a b = true <-> a = b.
+Proof.
+  induction a as [|x a IH]; intros [|y b]; simpl; split; intros H; try congruence; try discriminate.
+  - apply andb_prop in H as [H1 H2]. apply eqb_prop in H1. apply IH in H2. congruence.
+  - inversion H; subst. rewrite eqb_reflx. simpl. apply IH. reflexivity.
+Qed.
+
+Definition count_true (rv : list bool) : nat := length (filter (fun b => b) rv).
+
+Lemma count_true_le_length rv : count_true rv <= length rv.
+Proof.
+  unfold count_true. induction rv as [|b rv IH]; simpl; [lia|]. destruct b; simpl; lia.
+Qed.
+
+Lemma count_true_mono (f f' : N -> bool) l :
+  (forall n, f n = true -> f' n = true) ->
+  count_true (map f l) <= count_true (map f' l) /\
+  (bools_eqb (map f' l) (map f l) = false -> count_true (map f l) < count_true (map f' l)).
+Proof.
+  intros Hm. unfold count_true. induction l as [|a l [IH1 IH2]]; simpl; [split; [lia|discriminate]|].
+  pose proof (Hm a) as Ha.
+  destruct (f a) eqn:Ea, (f' a) eqn:Ea'; simpl; try (specialize (Ha eq_refl); discriminate);
+    split; try lia; intros H; try lia; specialize (IH2 H); lia.
+Qed.
+
+Lemma eqn_t_mono g (f f' : N -> bool) a :
+  (forall n, f n = true -> f' n = true) -> eqn_t g f a = true -> eqn_t g f' a = true.
+Proof.
+  intros Hm H. unfold eqn_t in *. apply existsb_exists in H as (p & Hp & H).
+  apply existsb_exists. exists p. split; [exact Hp|].
+  rewrite forallb_forall in H |- *. intros s Hs. specialize (H s Hs).
+  destruct s as [t|n]; [reflexivity|]. simpl in *. apply Hm. exact H.
+Qed.
+
+Lemma eqn_t_true g f a :
+  eqn_t g f a = true <->
+  exists p, In p (prods g) /\ lhs p = a /\ forall b, In (NT b) (rhs p) -> f b = true.
+Proof.
+  unfold eqn_t. rewrite existsb_exists. split.
+  - intros (p & Hp & H). apply in_prods_of in Hp as [Hp Hl]. exists p.
+    split; [exact Hp|split; [exact Hl|]]. intros b Hb.
+    rewrite forallb_forall in H. apply (H (NT b) Hb).
+  - intros (p & Hp & Hl & H). exists p. split; [apply in_prods_of; auto|].
+    apply forallb_forall. intros s Hs. destruct s as [t|n]; [reflexivity|]. apply H. exact Hs.
+Qed.
+
+Lemma eqn_t_sound g f a :
+  (forall n, f n = true -> productive g n) -> eqn_t g f a = true -> productive g a.
+Proof.
+  intros Hs H. apply eqn_t_true in H as (p & Hp & Hl & H). apply productive_step.
+  exists p. split; [exact Hp|split; [exact Hl|]]. intros b Hb. apply Hs. apply H. exact Hb.
+Qed.
+
+Definition prod_J (g : cfg) (ns : list N) (rv : list bool) : Prop :=
+  exists f, rv = map f ns /\ (forall n, f n = true -> productive g n) /\
+            (forall n, f n = true -> eqn_t g f n = true).
+
+Lemma prod_round_J g ns x x' c :
+  closed_ns g ns -> prod_J g ns x -> prod_round g ns x = Some (x', c) -> prod_J g ns x'.
+Proof.
+  intros Hc (f & -> & Hs & Hm) H. rewrite prod_round_map in H by exact Hc.
+  inversion H; subst. exists (eqn_t g f). split; [reflexivity|]. split.
+  - intros n. apply eqn_t_sound. exact Hs.
+  - intros n. apply eqn_t_mono. exact Hm.
+Qed.
+
+Lemma prod_J_init g ns : prod_J g ns (map (fun _ => false) ns).
+Proof. exists (fun _ => false). split; [reflexivity|]. split; intros n Hn; discriminate. Qed.
+
+(** A fixpoint on [ns] contains every productive non-terminal of [ns]. *)
+Lemma prod_fix_complete g ns f :
+  closed_ns g ns -> (forall n, In n ns -> eqn_t g f n = true -> f n = true) ->
+  forall α w, derives g α w -> forall b, In (NT b) α -> In b ns -> f b = true.
+Proof.
+  intros Hc Hf. induction 1 as [|t α w H IH|a p α u v Hin Hl Hr IHr Ha IHa]; intros b Hb Hbn.
+  - destruct Hb.
+  - destruct Hb as [Hb|Hb]; [discriminate|]. apply IH; assumption.
+  - destruct Hb as [Hb|Hb]; [|apply IHa; assumption].
+    inversion Hb; subst b. apply Hf; [exact Hbn|]. apply eqn_t_true. exists p.
+    split; [exact Hin|split; [exact Hl|]]. intros n Hn. apply IHr; [exact Hn|].
+    eapply Hc; eauto.
+Qed.
+
+Lemma In_combine_map (f : N -> bool) ns a b :
+  In (a, b) (combine ns (map f ns)) <-> In a ns /\ b = f a.
+Proof.
+  induction ns as [|n ns IH]; simpl; [tauto|]. rewrite IH. split.
+  - intros [H|H]; [inversion H; subst; auto|tauto].
+  - intros [[->|H] ->]; auto.
+Qed.
+
+Lemma productive_vector_spec g rv :
+  productive_vector g = Some rv ->
+  exists f, rv = map f (nt_set g) /\
+            forall a, In a (nt_set g) -> (f a = true <-> productive g a).
+Proof.
+  unfold productive_vector. intros H. pose proof (nt_set_closed g) as Hc.
+  destruct (iter_until_inv (prod_J g (nt_set g)) (prod_round g (nt_set g))
+              (fun x x' c => prod_round_J g (nt_set g) x x' c Hc) _ _ _
+              (prod_J_init g (nt_set g)) H) as (rv0 & (f & -> & Hs & Hm) & Hstep).
+  rewrite prod_round_map in Hstep by exact Hc. injection Hstep as Hrv Heq.
+  apply negb_false_iff in Heq. apply bools_eqb_eq in Heq.
+  exists f. split; [congruence|]. intros a Ha. split; [apply Hs|].
+  intros (w & Hw). apply (prod_fix_complete g (nt_set g) f Hc) with (α := [NT a]) (w := w); auto.
+  - intros n Hn He. rewrite <- He. symmetry.
+    apply (proj1 (@map_ext_in_iff _ _ _ _ _) Heq n Hn).
+  - left. reflexivity.
+Qed.
+
+Theorem productive_vector_total g : exists rv, productive_vector g = Some rv.
+Proof.
+  unfold productive_vector. pose proof (nt_set_closed g) as Hc.
+  apply (iter_until_terminates (prod_J g (nt_set g)) count_true (length (nt_set g))
+           (prod_round g (nt_set g)) (fun x x' c => prod_round_J g (nt_set g) x x' c Hc)).
+  - intros x (f & -> & Hs & Hm). rewrite prod_round_map by exact Hc.
+    eexists _, _. split; [reflexivity|]. intros Hne. apply negb_true_iff in Hne.
+    apply (count_true_mono f (eqn_t g f)); assumption.
+  - intros x (f & -> & _). rewrite <- (map_length f (nt_set g)). apply count_true_le_length.
+  - apply prod_J_init.
+  - lia.
+Qed.
+
+Theorem unproductive_total g : exists l, unproductive_nts g = Some l.
+Proof.
+  unfold unproductive_nts. destruct (productive_vector_total g) as (rv & ->). eauto.
+Qed.
+
+Theorem productive_exact g l :
+  unproductive_nts g = Some l -> forall a, In a l <-> In a (nts g) /\ ~ productive g a.
+Proof.
+  unfold unproductive_nts. destruct (productive_vector g) as [rv|] eqn:E; [|discriminate].
+  intros H a. injection H as <-.
+  destruct (productive_vector_spec g rv E) as (f & -> & Hf).
+  rewrite in_map_iff. rewrite <- In_nt_set. split.
+  - intros ([a' b] & Ha & Hin). simpl in Ha. subst a'. apply filter_In in Hin as [Hin Hb].
+    apply In_combine_map in Hin as [Hin ->]. simpl in Hb. apply negb_true_iff in Hb.
+    split; [exact Hin|]. intros Hp. apply (Hf a Hin) in Hp. congruence.
+  - intros [Hin Hnp]. exists (a, f a). split; [reflexivity|]. apply filter_In.
+    split; [apply In_combine_map; auto|]. simpl. apply negb_true_iff.
+    destruct (f a) eqn:Efa; [|reflexivity]. exfalso. apply Hnp. apply (Hf a Hin). exact Efa.
+Qed.
+
+(** ** Reachable non-terminals: [reachable_non_terminals], [unreachable_non_terminals] *)
+
+Definition reach_sym (acc : list N) (s : sym) : list N :=
+  match s with NT n => add n acc | T _ => acc end.
+
+Definition reach_prod (acc : list N) (p : prod) : list N :=
+  if mem (lhs p) acc then fold_left reach_sym (rhs p) acc else acc.
+
+(** [insert_reachable]: one sweep over all productions, inserting in place. *)
+Definition reach_sweep (ps : list prod) (r : list N) : list N := fold_left reach_prod ps r.
+
+Definition reach_round (ps : list prod) (r : list N) : option (list N * bool) :=
+  let r' := reach_sweep ps r in Some (r', length r <? length r').
+
+Definition reachable_raw (g : cfg) : option (list N) :=
+  iter_until (S (length (nts g))) (reach_round (prods g)) [start g].
+
+Definition reachable_nts (g : cfg) : option (list N) := option_map to_set (reachable_raw g).
+
+(** [get_non_terminal_set().difference(reachable)] *)
+Definition unreachable_nts (g : cfg) : option (list N) :=
+  match reachable_nts g with
+  | None => None
+  | Some r => Some (filter (fun a => negb (mem a r)) (nt_set g))
+  end.
+
+Lemma reach_sym_ext acc s : ext acc (reach_sym acc s).
+Proof. destruct s; simpl; [apply ext_refl|apply ext_add]. Qed.
+
+Lemma reach_prod_ext acc p : ext acc (reach_prod acc p).
+Proof.
+  unfold reach_prod. destruct (mem (lhs p) acc); [|apply ext_refl].
+  apply fold_ext. apply reach_sym_ext.
+Qed.
+
+Definition reach_I (g : cfg) (r : list N) : Prop :=
+  NoDup r /\ In (start g) r /\ forall x, In x r -> reachable g x.
+
+Lemma reach_prod_I g r p : In p (prods g) -> reach_I g r -> reach_I g (reach_prod r p).
+Proof.
+  intros Hp HI. unfold reach_prod. destruct (mem (lhs p) r) eqn:E; [|exact HI].
+  apply mem_In in E. assert (Hl : reachable g (lhs p)) by (apply HI; exact E). revert HI.
+  apply (fold_inv reach_sym (reach_I g)).
+  intros acc s Hs (Hn & Hst & Hs'). destruct s as [t|n]; simpl; [repeat split; assumption|].
+  split; [apply NoDup_add; exact Hn|]. split; [apply In_add; right; exact Hst|].
+  intros x Hx. apply In_add in Hx as [->|Hx]; [|apply Hs'; exact Hx].
+  apply (reachable_step g (lhs p)); [exact Hl|]. exists p. auto.
+Qed.
+
+Lemma reach_round_I g x x' c :
+  reach_I g x -> reach_round (prods g) x = Some (x', c) -> reach_I g x'.
+Proof.
+  intros HI H. unfold reach_round in H. injection H as <- _. unfold reach_sweep.
+  revert HI. apply (fold_inv reach_prod (reach_I g)). intros acc p Hp. apply reach_prod_I. exact Hp.
+Qed.
+
+Lemma reach_I_init g : reach_I g [start g].
+Proof.
+  split; [constructor; [intros []|constructor]|]. split; [left; reflexivity|].
+  intros x [<-|[]]. apply reachable_start.
+Qed.
+
+Lemma reach_fix_closed ps r :
+  reach_sweep ps r = r ->
+  forall p n, In p ps -> In (lhs p) r -> In (NT n) (rhs p) -> In n r.
+Proof.
+  intros H p n Hp Hl Hn.
+  pose proof (fold_ext_fix reach_prod reach_prod_ext ps r H p Hp) as Hf.
+  unfold reach_prod in Hf. apply mem_In in Hl. rewrite Hl in Hf.
+  pose proof (fold_ext_fix reach_sym reach_sym_ext (rhs p) r Hf (NT n) Hn) as Hs.
+  simpl in Hs. apply add_fix. exact Hs.
+Qed.
+
+Theorem reachable_raw_exact g l :
+  reachable_raw g = Some l -> forall a, In a l <-> reachable g a.
+Proof.
+  unfold reachable_raw. intros H a.
+  destruct (iter_until_inv (reach_I g) (reach_round (prods g)) (reach_round_I g) _ _ _
+              (reach_I_init g) H) as (r & (Hn & Hst & Hs) & Hstep).
+  unfold reach_round in Hstep. injection Hstep as Hl Hlen. apply Nat.ltb_ge in Hlen.
+  assert (Hfix : reach_sweep (prods g) r = r).
+  { apply ext_same_length; [|exact Hlen]. apply fold_ext. apply reach_prod_ext. }
+  subst l. rewrite Hfix. split; [apply Hs|].
+  intros Ha. induction Ha as [|b c _ IH (p & Hp & Hlp & Hc)] using reachable_ind'; [exact Hst|].
+  subst b. apply (reach_fix_closed _ _ Hfix p c Hp IH Hc).
+Qed.
+
+Theorem reachable_raw_total g : exists l, reachable_raw g = Some l.
+Proof.
+  unfold reachable_raw.
+  apply (iter_until_terminates (reach_I g) (@length N) (length (nts g))
+           (reach_round (prods g)) (reach_round_I g)).
+  - intros x _. eexists _, _. split; [reflexivity|]. intros Hc. apply Nat.ltb_lt in Hc. exact Hc.
+  - intros x (Hn & _ & Hs). apply NoDup_incl_length; [exact Hn|].
+    intros y Hy. apply reachable_in_nts. apply Hs. exact Hy.
+  - apply reach_I_init.
+  - lia.
+Qed.
+
+Theorem reachable_total g : exists l, reachable_nts g = Some l.
+Proof. unfold reachable_nts. destruct (reachable_raw_total g) as (l & ->). simpl. eauto. Qed.
+
+Theorem reachable_exact g l :
+  reachable_nts g = Some l -> forall a, In a l <-> reachable g a.
+Proof.
+  unfold reachable_nts. destruct (reachable_raw g) as [r|] eqn:E; [|discriminate].
+  intros H a. injection H as <-. rewrite In_to_set. apply (reachable_raw_exact g r E).
+Qed.
+
+Theorem unreachable_total g : exists l, unreachable_nts g = Some l.
+Proof. unfold unreachable_nts. destruct (reachable_total g) as (l & ->). eauto. Qed.
+
+Theorem unreachable_exact g l :
+  unreachable_nts g = Some l -> forall a, In a l <-> In a (nts g) /\ ~ reachable g a.
+Proof.
+  unfold unreachable_nts. destruct (reachable_nts g) as [r|] eqn:E; [|discriminate].
+  intros H a. injection H as <-. rewrite filter_In, In_nt_set, negb_true_iff, mem_false.
+  rewrite (reachable_exact g r E a). tauto.
+Qed.
+
+(** ** Left-recursive non-terminals: [detect_left_recursive_non_terminals]
+
+    The Rust [BTreeMap<String, HashSet<String>>] [can_start_with], whose key set is fixed
+    ([get_non_terminal_set]), is modelled by the duplicate-free list of pairs [(key, member)].
+    [can_start_with.get_mut(lhs).unwrap()] cannot fail as long as every left-hand side is a
+    key; the model tests this up front and returns [None] otherwise (it never happens, see
+    [left_recursive_None]). *)
+
+Definition pair_eqb (p q : N * N) : bool := N.eqb (fst p) (fst q) && N.eqb (snd p) (snd q).
+Definition memp (q : N * N) (rel : list (N * N)) : bool := existsb (pair_eqb q) rel.
+
+Lemma memp_In q rel : memp q rel = true <-> In q rel.
+Proof.
+  unfold memp. rewrite existsb_exists. split.
+  - intros (x & Hx & E). unfold pair_eqb in E. apply andb_prop in E as [E1 E2].
+    apply N.eqb_eq in E1, E2. destruct q, x; simpl in *; subst. exact Hx.
+  - intros H. exists q. split; [exact H|]. unfold pair_eqb. rewrite !N.eqb_refl. reflexivity.
+Qed.
+
+(** [HashSet::insert], returning whether the element was new. *)
+Definition addp_flag (q : N * N) (rel : list (N * N)) : list (N * N) * bool :=
+  if memp q rel then (rel, false) else (q :: rel, true).
+
+Definition addp (q : N * N) (rel : list (N * N)) : list (N * N) := fst (addp_flag q rel).
+
+(** The set stored under key [a]. *)
+Definition succs (rel : list (N * N)) (a : N) : list N :=
+  map snd (filter (fun q => N.eqb (fst q) a) rel).
+
+Lemma In_addp x q rel : In x (addp q rel) <-> x = q \/ In x rel.
+Proof.
+  unfold addp, addp_flag. destruct (memp q rel) eqn:E; simpl; [|intuition congruence].
+  apply memp_In in E. split; [auto|]. intros [->|H]; assumption.
+Qed.
+
+Lemma NoDup_addp q rel : NoDup rel -> NoDup (addp q rel).
+Proof.
+  intros H. unfold addp, addp_flag. destruct (memp q rel) eqn:E; simpl; [exact H|].
+  constructor; [|exact H]. intros Hin. apply memp_In in Hin. congruence.
+Qed.
+
+Lemma addp_fix q rel : addp q rel = rel -> In q rel.
+Proof.
+  unfold addp, addp_flag. destruct (memp q rel) eqn:E; simpl; intros H; [apply memp_In; exact E|].
+  apply (f_equal (@length _)) in H. simpl in H. lia.
+Qed.
+
+Lemma In_succs rel a x : In x (succs rel a) <-> In (a, x) rel.
+Proof.
+  unfold succs. rewrite in_map_iff. split.
+  - intros ([a' x'] & Hx & Hin). simpl in Hx. subst x'. apply filter_In in Hin as [Hin E].
+    simpl in E. apply N.eqb_eq in E. subst. exact Hin.
+  - intros H. exists (a, x). split; [reflexivity|]. apply filter_In. split; [exact H|].
+    simpl. apply N.eqb_refl.
+Qed.
+
+(** *** Steps that grow a list at the front and report whether they did *)
+
+Definition grows {P} (f : list P -> list P * bool) : Prop :=
+  forall rel, exists d, fst (f rel) = d ++ rel /\ snd (f rel) = negb (is_nil d).
+
+Lemma grows_lt {P} (f : list P -> list P * bool) rel :
+  grows f -> snd (f rel) = true -> length rel < length (fst (f rel)).
+Proof.
+  intros Hg Hc. destruct (Hg rel) as (d & -> & Hs). rewrite Hs in Hc.
+  destruct d; [discriminate|]. simpl. rewrite app_length. lia.
+Qed.
+
+Lemma grows_fix {P} (f : list P -> list P * bool) rel :
+  grows f -> snd (f rel) = false -> fst (f rel) = rel.
+Proof.
+  intros Hg Hc. destruct (Hg rel) as (d & -> & Hs). rewrite Hs in Hc.
+  destruct d; [reflexivity|discriminate].
+Qed.
+
+(** [for x in xs { changed |= st(x) }] *)
+Fixpoint fold_flag {X P} (st : X -> list P -> list P * bool) (xs : list X) (rel : list P)
+  : list P * bool :=
+  match xs with
+  | [] => (rel, false)
+  | x :: xs' =>
+      let (r1, c1) := st x rel in
+      let (r2, c2) := fold_flag st xs' r1 in (r2, c1 || c2)
+  end.
+
+Lemma fold_flag_grows {X P} (st : X -> list P -> list P * bool) xs :
+  (forall x, grows (st x)) -> grows (fold_flag st xs).
+Proof.
+  intros Hg. induction xs as [|x xs IH]; intros rel; simpl.
+  - exists []. auto.
+  - destruct (Hg x rel) as (d1 & H1 & C1). destruct (st x rel) as [r1 c1]. simpl in *.
+    destruct (IH r1) as (d2 & H2 & C2). destruct (fold_flag st xs r1) as [r2 c2]. simpl in *.
+    subst. exists (d2 ++ d1). split; [apply app_assoc|].
+    destruct d1, d2; reflexivity.
+Qed.
+
+Lemma fold_flag_inv {X P} (st : X -> list P -> list P * bool) (I : list P -> Prop) xs :
+  (forall x rel, In x xs -> I rel -> I (fst (st x rel))) ->
+  forall rel, I rel -> I (fst (fold_flag st xs rel)).
+Proof.
+  induction xs as [|x xs IH]; intros Hs rel Hr; simpl; [exact Hr|].
+  pose proof (Hs x rel (or_introl eq_refl) Hr) as H1. destruct (st x rel) as [r1 c1]. simpl in H1.
+  assert (H2 : I (fst (fold_flag st xs r1))).
+  { apply IH; [|exact H1]. intros y r Hy. apply Hs. right. exact Hy. }
+  destruct (fold_flag st xs r1) as [r2 c2]. exact H2.
+Qed.
+
+Lemma fold_flag_fix {X P} (st : X -> list P -> list P * bool) xs :
+  (forall x, grows (st x)) -> forall rel, snd (fold_flag st xs rel) = false ->
+  forall x, In x xs -> fst (st x rel) = rel.
+Proof.
+  intros Hg. induction xs as [|y xs IH]; intros rel Hc x Hx; [destruct Hx|].
+  simpl in Hc. pose proof (grows_fix (st y) rel (Hg y)) as Hy.
+  destruct (st y rel) as [r1 c1] eqn:E1. simpl in Hy.
+  destruct (fold_flag st xs r1) as [r2 c2] eqn:E2. simpl in Hc.
+  apply orb_false_iff in Hc as [-> ->]. specialize (Hy eq_refl). subst r1.
+  destruct Hx as [<-|Hx]; [rewrite E1; reflexivity|].
+  apply IH; [rewrite E2; reflexivity|exact Hx].
+Qed.
+
+Lemma fold_flag_In {X P} (st : X -> list P -> list P * bool) (Q : X -> P -> Prop) :
+  (forall x rel q, In q (fst (st x rel)) <-> In q rel \/ Q x q) ->
+  forall xs rel q, In q (fst (fold_flag st xs rel)) <-> In q rel \/ exists x, In x xs /\ Q x q.
+Proof.
+  intros Hs xs. induction xs as [|x xs IH]; intros rel q; simpl.
+  - split; [auto|]. intros [H|(x & [] & _)]. exact H.
+  - specialize (Hs x rel q). destruct (st x rel) as [r1 c1]. simpl in Hs.
+    specialize (IH r1 q). destruct (fold_flag st xs r1) as [r2 c2]. simpl in *.
+    rewrite IH, Hs. split.
+    + intros [[H|H]|(y & Hy & H)]; eauto.
+    + intros [H|(y & [<-|Hy] & H)]; eauto.
+Qed.
+
+(** *** Phase 1: the relation "A can start with B" *)
+
+(** The loop over the symbols of one production: insert every non-terminal up to and including
+    the first one that is not nullable; stop at a terminal. *)
+Fixpoint csw_prod (nl : list N) (a : N) (r : list sym) (rel : list (N * N))
+  : list (N * N) * bool :=
+  match r with
+  | NT n :: r' =>
+      let (rel1, c1) := addp_flag (a, n) rel in
+      if mem n nl
+      then let (rel2, c2) := csw_prod nl a r' rel1 in (rel2, c1 || c2)
+      else (rel1, c1)
+  | _ => (rel, false)
+  end.
+
+Definition csw_sweep (g : cfg) (nl : list N) (rel : list (N * N)) : list (N * N) * bool :=
+  fold_flag (fun p => csw_prod nl (lhs p) (rhs p)) (prods g) rel.
+
+(** The non-terminals of [r] that are preceded by nullable non-terminals only. *)
+Fixpoint heads (nl : list N) (r : list sym) : list N :=
+  match r with
+  | NT n :: r' => n :: (if mem n nl then heads nl r' else [])
+  | _ => []
+  end.
+
+Lemma In_heads nl r y :
+  In y (heads nl r) <->
+  exists α β, r = α ++ NT y :: β /\ forall s, In s α -> exists b, s = NT b /\ In b nl.
+Proof.
+  split.
+  - induction r as [|s r IH]; simpl; [intros []|]. destruct s as [t|n]; [intros []|].
+    intros [->|H].
+    + exists [], r. split; [reflexivity|intros s []].
+    + destruct (mem n nl) eqn:E; [|destruct H]. apply mem_In in E.
+      destruct (IH H) as (α & β & -> & Hα). exists (NT n :: α), β. split; [reflexivity|].
+      intros s [<-|Hs]; [eauto|apply Hα; exact Hs].
+  - intros (α & β & -> & Hα). induction α as [|s α IH]; simpl; [left; reflexivity|].
+    destruct (Hα s (or_introl eq_refl)) as (b & -> & Hb). right.
+    apply mem_In in Hb. rewrite Hb. apply IH. intros s Hs. apply Hα. right. exact Hs.
+Qed.
+
+Lemma addp_flag_grows q : grows (addp_flag q).
+Proof.
+  intros rel. unfold addp_flag. destruct (memp q rel); [exists []|exists [q]]; auto.
+Qed.
+
+Lemma csw_prod_grows nl a r : grows (csw_prod nl a r).
+Proof.
+  induction r as [|s r IH]; intros rel; simpl; [exists []; auto|].
+  destruct s as [t|n]; [exists []; auto|].
+  destruct (addp_flag_grows (a, n) rel) as (d1 & H1 & C1).
+  destruct (addp_flag (a, n) rel) as [r1 c1]. simpl in *.
+  destruct (mem n nl); [|exists d1; auto].
+  destruct (IH r1) as (d2 & H2 & C2). destruct (csw_prod nl a r r1) as [r2 c2]. simpl in *.
+  subst. exists (d2 ++ d1). split; [apply app_assoc|]. destruct d1, d2; reflexivity.
+Qed.
+
+Lemma csw_prod_In nl a r : forall rel q,
+  In q (fst (csw_prod nl a r rel)) <-> In q rel \/ (fst q = a /\ In (snd q) (heads nl r)).
+Proof.
+  induction r as [|s r IH]; intros rel q; simpl; [tauto|].
+  destruct s as [t|n]; simpl; [tauto|].
+  pose proof (In_addp q (a, n) rel) as Ha. unfold addp in Ha.
+  destruct (addp_flag (a, n) rel) as [r1 c1]. simpl in Ha.
+  destruct (mem n nl).
+  - specialize (IH r1 q). destruct (csw_prod nl a r r1) as [r2 c2]. simpl in *.
+    rewrite IH, Ha. destruct q as [x y]. simpl. split.
+    + intros [[H|H]|[H1 H2]]; [inversion H; subst|..]; auto.
+    + intros [H|[H1 [H2|H2]]]; subst; auto.
+  - simpl. rewrite Ha. destruct q as [x y]. simpl. split.
+    + intros [H|H]; [inversion H; subst|]; auto.
+    + intros [H|[H1 [H2|[]]]]; subst; auto.
+Qed.
+
+Lemma csw_prod_NoDup nl a r : forall rel, NoDup rel -> NoDup (fst (csw_prod nl a r rel)).
+Proof.
+  induction r as [|s r IH]; intros rel Hn; simpl; [exact Hn|].
+  destruct s as [t|n]; [exact Hn|].
+  pose proof (NoDup_addp (a, n) rel Hn) as Ha. unfold addp in Ha.
+  destruct (addp_flag (a, n) rel) as [r1 c1]. simpl in Ha.
+  destruct (mem n nl); [|exact Ha].
+  specialize (IH r1 Ha). destruct (csw_prod nl a r r1) as [r2 c2]. exact IH.
+Qed.
+
+Lemma csw_sweep_In g nl rel a b :
+  (forall n, In n nl <-> nullable g n) ->
+  In (a, b) (fst (csw_sweep g nl rel)) <-> In (a, b) rel \/ left_step g a b.
+Proof.
+  intros Hnl. unfold csw_sweep.
+  rewrite (fold_flag_In (fun p => csw_prod nl (lhs p) (rhs p))
+             (fun p q => fst q = lhs p /\ In (snd q) (heads nl (rhs p))))
+    by (intros p r q; apply csw_prod_In).
+  simpl. apply or_iff_compat_l. split.
+  - intros (p & Hp & Hl & Hh). apply In_heads in Hh as (α & β & Hr & Hα).
+    exists p, α, β. repeat split; auto. intros s Hs. destruct (Hα s Hs) as (n & -> & Hn).
+    exists n. split; [reflexivity|apply Hnl; exact Hn].
+  - intros (p & α & β & Hp & Hl & Hr & Hα). exists p. repeat split; auto.
+    apply In_heads. exists α, β. split; [exact Hr|]. intros s Hs.
+    destruct (Hα s Hs) as (n & -> & Hn). exists n. split; [reflexivity|apply Hnl; exact Hn].
+Qed.
+
+Lemma csw_sweep_grows g nl : grows (csw_sweep g nl).
+Proof. apply fold_flag_grows. intros p. apply csw_prod_grows. Qed.
+
+Lemma csw_sweep_NoDup g nl rel : NoDup rel -> NoDup (fst (csw_sweep g nl rel)).
+Proof.
+  apply (fold_flag_inv (fun p => csw_prod nl (lhs p) (rhs p)) (@NoDup _)).
+  intros p r _. apply csw_prod_NoDup.
+Qed.
+
+(** *** Phase 2: transitive closure *)
+
+(** The body of [for nt in keys]: [v] is a snapshot of the set of [nt]; for every [e] in [v] the
+    current set of [e] is added to the set of [nt]; the flag compares sizes before and after. *)
+Definition close_inner (nt : N) (r : list (N * N)) (e : N) : list (N * N) :=
+  fold_left (fun r' x => addp (nt, x) r') (succs r e) r.
+
+Definition close_nt (nt : N) (rel : list (N * N)) : list (N * N) * bool :=
+  let v := succs rel nt in
+  let rel' := fold_left (close_inner nt) v rel in
+  (rel', length v <? length (succs rel' nt)).
+
+Definition close_sweep (keys : list N) (rel : list (N * N)) : list (N * N) * bool :=
+  fold_flag close_nt keys rel.
+
+Definition extP {A} (P : A -> Prop) (l l' : list A) : Prop :=
+  exists d, l' = d ++ l /\ Forall P d.
+
+Lemma extP_refl {A} (P : A -> Prop) l : extP P l l.
+Proof. exists []. auto. Qed.
+
+Lemma extP_trans {A} (P : A -> Prop) l1 l2 l3 : extP P l1 l2 -> extP P l2 l3 -> extP P l1 l3.
+Proof.
+  intros (d1 & -> & H1) (d2 & -> & H2). exists (d2 ++ d1). split; [apply app_assoc|].
+  apply Forall_app. auto.
+Qed.
+
+Lemma extP_ext {A} (P : A -> Prop) l l' : extP P l l' -> ext l l'.
+Proof. intros (d & -> & _). exists d. reflexivity. Qed.
+
+Lemma fold_extP {A X} (P : A -> Prop) (f : list A -> X -> list A) :
+  (forall acc x, extP P acc (f acc x)) -> forall xs r, extP P r (fold_left f xs r).
+Proof.
+  intros Hf xs. induction xs as [|x xs IH]; intros r; simpl; [apply extP_refl|].
+  eapply extP_trans; [apply Hf|apply IH].
+Qed.
+
+Lemma addp_extP nt x r : extP (fun q : N * N => fst q = nt) r (addp (nt, x) r).
+Proof.
+  unfold addp, addp_flag. destruct (memp (nt, x) r); simpl; [apply extP_refl|].
+  exists [(nt, x)]. split; [reflexivity|]. constructor; [reflexivity|constructor].
+Qed.
+
+Lemma close_inner_extP nt r e : extP (fun q : N * N => fst q = nt) r (close_inner nt r e).
+Proof. unfold close_inner. apply fold_extP. intros acc x. apply addp_extP. Qed.
+
+Lemma succs_own_length d nt :
+  Forall (fun q : N * N => fst q = nt) d -> length (succs d nt) = length d.
+Proof.
+  unfold succs. induction 1 as [|q d Hq _ IH]; [reflexivity|]. simpl.
+  rewrite Hq, N.eqb_refl. simpl. rewrite IH. reflexivity.
+Qed.
+
+Lemma succs_app d rel a : succs (d ++ rel) a = succs d a ++ succs rel a.
+Proof. unfold succs. rewrite filter_app, map_app. reflexivity. Qed.
+
+Lemma close_nt_grows nt : grows (close_nt nt).
+Proof.
+  intros rel. unfold close_nt. simpl.
+  destruct (fold_extP (fun q : N * N => fst q = nt) (close_inner nt) (close_inner_extP nt)
+              (succs rel nt) rel) as (d & Hd & Hf).
+  exists d. split; [exact Hd|]. rewrite Hd, succs_app, app_length, (succs_own_length d nt Hf).
+  destruct d; simpl.
+  - apply Nat.ltb_irrefl.
+  - apply Nat.ltb_lt. lia.
+Qed.
+
+Lemma close_sweep_grows keys : grows (close_sweep keys).
+Proof. apply fold_flag_grows. apply close_nt_grows. Qed.
+
+Definition tc_I (g : cfg) (rel : list (N * N)) : Prop :=
+  NoDup rel /\ (forall a b, left_step g a b -> In (a, b) rel) /\
+  (forall a b, In (a, b) rel -> clos_trans N (left_step g) a b).
+
+Lemma close_nt_I g nt rel : tc_I g rel -> tc_I g (fst (close_nt nt rel)).
+Proof.
+  intros (Hn & Hc & Hs). unfold close_nt. simpl.
+  set (K := fun r : list (N * N) => incl rel r /\ NoDup r /\
+                 forall a b, In (a, b) r -> clos_trans N (left_step g) a b).
+  assert (HK : K (fold_left (close_inner nt) (succs rel nt) rel)).
+  { apply (fold_inv (close_inner nt) K).
+    - intros r e He Hr. apply In_succs in He. unfold close_inner.
+      apply (fold_inv (fun r' x => addp (nt, x) r') K); [|exact Hr].
+      intros r' x Hx (Hi' & Hn' & Hs'). apply In_succs in Hx.
+      split; [intros q Hq; apply In_addp; right; apply Hi'; exact Hq|].
+      split; [apply NoDup_addp; exact Hn'|].
+      intros a b Hab. apply In_addp in Hab as [Hab|Hab]; [|apply Hs'; exact Hab].
+      inversion Hab; subst. destruct Hr as (_ & _ & Hsr).
+      eapply t_trans; [apply Hs; exact He|apply Hsr; exact Hx].
+    - split; [apply incl_refl|]. split; assumption. }
+  destruct HK as (Hi' & Hn' & Hs'). split; [exact Hn'|]. split; [|exact Hs'].
+  intros a b Hab. apply Hi'. apply Hc. exact Hab.
+Qed.
+
+Lemma close_sweep_I g keys rel : tc_I g rel -> tc_I g (fst (close_sweep keys rel)).
+Proof. apply (fold_flag_inv close_nt (tc_I g)). intros nt r _. apply close_nt_I. Qed.
+
+Lemma close_nt_fix nt rel :
+  fst (close_nt nt rel) = rel -> forall e x, In (nt, e) rel -> In (e, x) rel -> In (nt, x) rel.
+Proof.
+  unfold close_nt. simpl. intros H e x He Hx.
+  assert (Hext : forall acc y, ext acc (close_inner nt acc y)).
+  { intros acc y. eapply extP_ext. apply close_inner_extP. }
+  pose proof (fold_ext_fix (close_inner nt) Hext (succs rel nt) rel H e
+                (proj2 (In_succs rel nt e) He)) as H1.
+  unfold close_inner in H1.
+  assert (Hext' : forall acc y, ext acc (addp (nt, y) acc)).
+  { intros acc y. eapply extP_ext. apply addp_extP. }
+  pose proof (fold_ext_fix (fun r' y => addp (nt, y) r') Hext' (succs rel e) rel H1 x
+                (proj2 (In_succs rel e x) Hx)) as H2.
+  apply addp_fix. exact H2.
+Qed.
+
+(** *** The complete function *)
+
+Definition csw_round (g : cfg) (nl : list N) (rel : list (N * N))
+  : option (list (N * N) * bool) := Some (csw_sweep g nl rel).
+
+Definition close_round (keys : list N) (rel : list (N * N))
+  : option (list (N * N) * bool) := Some (close_sweep keys rel).
+
+Definition left_recursive_nts (g : cfg) : option (list N) :=
+  match nullable_nts g with
+  | None => None
+  | Some nl =>
+      let keys := nt_set g in
+      let fuel := S (length keys * length keys) in
+      if forallb (fun p => mem (lhs p) keys) (prods g) then
+        match iter_until fuel (csw_round g nl) [] with
+        | None => None
+        | Some rel1 =>
+            match iter_until fuel (close_round keys) rel1 with
+            | None => None
+            | Some rel2 => Some (filter (fun k => memp (k, k) rel2) keys)
+            end
+        end
+      else None
+  end.
+
+Lemma rel_bound (keys : list N) (rel : list (N * N)) :
+  NoDup rel -> (forall a b, In (a, b) rel -> In a keys /\ In b keys) ->
+  length rel <= length keys * length keys.
+Proof.
+  intros Hn Hi. rewrite <- prod_length. apply NoDup_incl_length; [exact Hn|].
+  intros [a b] Hab. apply in_prod_iff. apply Hi. exact Hab.
+Qed.
+
+Definition csw_I (g : cfg) (rel : list (N * N)) : Prop :=
+  NoDup rel /\ forall a b, In (a, b) rel -> left_step g a b.
+
+Lemma csw_round_I g nl x x' c :
+  (forall n, In n nl <-> nullable g n) ->
+  csw_I g x -> csw_round g nl x = Some (x', c) -> csw_I g x'.
+Proof.
+  intros Hnl (Hn & Hs) H. unfold csw_round in H. injection H as H.
+  assert (Hx' : x' = fst (csw_sweep g nl x)) by (rewrite H; reflexivity). subst x'.
+  split; [apply csw_sweep_NoDup; exact Hn|].
+  intros a b Hab. apply (csw_sweep_In g nl x a b Hnl) in Hab as [Hab|Hab]; auto.
+Qed.
+
+Lemma close_round_I g keys x x' c :
+  tc_I g x -> close_round keys x = Some (x', c) -> tc_I g x'.
+Proof.
+  intros HI H. unfold close_round in H. injection H as H.
+  assert (Hx' : x' = fst (close_sweep keys x)) by (rewrite H; reflexivity). subst x'.
+  apply close_sweep_I. exact HI.
+Qed.
+
+Lemma left_keys_ok g : forallb (fun p => mem (lhs p) (nt_set g)) (prods g) = true.
+Proof.
+  apply forallb_forall. intros p Hp. apply mem_In. apply In_nt_set. apply lhs_in_nts. exact Hp.
+Qed.
+
+Lemma csw_loop_total g nl :
+  (forall n, In n nl <-> nullable g n) ->
+  exists rel, iter_until (S (length (nt_set g) * length (nt_set g))) (csw_round g nl) [] = Some rel.
+Proof.
+  intros Hnl.
+  apply (iter_until_terminates (csw_I g) (@length _) (length (nt_set g) * length (nt_set g))
+           (csw_round g nl) (fun x x' c => csw_round_I g nl x x' c Hnl)).
+  - intros x _. unfold csw_round. destruct (csw_sweep g nl x) as [x' c] eqn:E.
+    exists x', c. split; [reflexivity|]. intros ->.
+    pose proof (grows_lt (csw_sweep g nl) x (csw_sweep_grows g nl)) as Hlt.
+    rewrite E in Hlt. apply Hlt. reflexivity.
+  - intros x (Hn & Hs). apply rel_bound; [exact Hn|]. intros a b Hab.
+    rewrite !In_nt_set. eapply left_step_in_nts. apply Hs. exact Hab.
+  - split; [constructor|intros a b []].
+  - lia.
+Qed.
+
+Lemma close_loop_total g rel :
+  tc_I g rel ->
+  exists rel', iter_until (S (length (nt_set g) * length (nt_set g)))
+                 (close_round (nt_set g)) rel = Some rel'.
+Proof.
+  intros HI.
+  apply (iter_until_terminates (tc_I g) (@length _) (length (nt_set g) * length (nt_set g))
+           (close_round (nt_set g)) (close_round_I g (nt_set g))).
+  - intros x _. unfold close_round. destruct (close_sweep (nt_set g) x) as [x' c] eqn:E.
+    exists x', c. split; [reflexivity|]. intros ->.
+    pose proof (grows_lt (close_sweep (nt_set g)) x (close_sweep_grows _)) as Hlt.
+    rewrite E in Hlt. apply Hlt. reflexivity.
+  - intros x (Hn & _ & Hs). apply rel_bound; [exact Hn|]. intros a b Hab.
+    rewrite !In_nt_set. eapply left_trans_in_nts. apply Hs. exact Hab.
+  - exact HI.
+  - lia.
+Qed.
+
+Lemma csw_loop_exact g nl fuel rel :
+  (forall n, In n nl <-> nullable g n) ->
+  iter_until fuel (csw_round g nl) [] = Some rel ->
+  NoDup rel /\ forall a b, In (a, b) rel <-> left_step g a b.
+Proof.
+  intros Hnl H.
+  destruct (iter_until_inv (csw_I g) (csw_round g nl)
+              (fun x x' c => csw_round_I g nl x x' c Hnl) fuel [] rel) as (x0 & HI0 & Hstep);
+    [split; [constructor|intros a b []]|exact H|].
+  pose proof (csw_round_I g nl x0 rel false Hnl HI0 Hstep) as (Hn & Hs).
+  split; [exact Hn|]. intros a b. split; [apply Hs|]. intros Hab.
+  unfold csw_round in Hstep. injection Hstep as Hstep.
+  assert (Hrel : rel = fst (csw_sweep g nl x0)) by (rewrite Hstep; reflexivity). subst rel.
+  apply (csw_sweep_In g nl x0 a b Hnl). right. exact Hab.
+Qed.
+
+Lemma close_loop_exact g fuel rel rel' :
+  tc_I g rel -> iter_until fuel (close_round (nt_set g)) rel = Some rel' ->
+  forall a b, In (a, b) rel' <-> clos_trans N (left_step g) a b.
+Proof.
+  intros HI H.
+  destruct (iter_until_inv (tc_I g) (close_round (nt_set g)) (close_round_I g (nt_set g))
+              fuel rel rel' HI H) as (x0 & HI0 & Hstep).
+  unfold close_round in Hstep. injection Hstep as Hstep.
+  assert (Hfix : fst (close_sweep (nt_set g) x0) = x0).
+  { apply grows_fix; [apply close_sweep_grows|]. rewrite Hstep. reflexivity. }
+  assert (Hrel : rel' = x0) by (rewrite <- Hfix, Hstep; reflexivity). subst x0.
+  destruct HI0 as (Hn & Hc & Hs).
+  assert (Hclosed : forall a e x, In (a, e) rel' -> In (e, x) rel' -> In (a, x) rel').
+  { intros a e x Hae Hex. refine (close_nt_fix a rel' _ e x Hae Hex).
+    apply (fold_flag_fix close_nt (nt_set g) close_nt_grows rel').
+    - unfold close_sweep in Hstep. rewrite Hstep. reflexivity.
+    - apply In_nt_set. apply (proj1 (left_trans_in_nts g a e (Hs _ _ Hae))). }
+  intros a b. split; [apply Hs|].
+  induction 1 as [a b Hab|a e b _ IH1 _ IH2]; [apply Hc; exact Hab|].
+  eapply Hclosed; eauto.
+Qed.
+
+Theorem leftrec_exact g l :
+  left_recursive_nts g = Some l -> forall a, In a l <-> left_rec g a.
+Proof.
+  unfold left_recursive_nts. destruct (nullable_nts g) as [nl|] eqn:En; [|discriminate].
+  pose proof (nullable_exact g nl En) as Hnl. rewrite left_keys_ok.
+  destruct (iter_until _ (csw_round g nl) []) as [rel1|] eqn:E1; [|discriminate].
+  destruct (iter_until _ (close_round (nt_set g)) rel1) as [rel2|] eqn:E2; [|discriminate].
+  intros H a. injection H as <-.
+  destruct (csw_loop_exact g nl _ rel1 Hnl E1) as (Hn1 & Hrel1).
+  assert (HI : tc_I g rel1).
+  { split; [exact Hn1|]. split; [intros x y Hxy; apply Hrel1; exact Hxy|].
+    intros x y Hxy. apply t_step. apply Hrel1. exact Hxy. }
+  pose proof (close_loop_exact g _ rel1 rel2 HI E2) as Hrel2.
+  rewrite filter_In, memp_In, Hrel2, In_nt_set. unfold left_rec. split; [tauto|].
+  intros H. split; [apply (left_rec_in_nts g a H)|exact H].
+Qed.
+
+(** The only [None] is the panic inherited from [calculate_nullable_non_terminals]. *)
+Theorem left_recursive_None g : left_recursive_nts g = None <-> prods_of g (start g) = [].
+Proof.
+  rewrite <- nullable_nts_None. unfold left_recursive_nts.
+  destruct (nullable_nts g) as [nl|] eqn:En; [|tauto]. split; [|discriminate].
+  intros H. exfalso. pose proof (nullable_exact g nl En) as Hnl. rewrite left_keys_ok in H.
+  destruct (csw_loop_total g nl Hnl) as (rel1 & E1). rewrite E1 in H.
+  destruct (csw_loop_exact g nl _ rel1 Hnl E1) as (Hn1 & Hrel1).
+  assert (HI : tc_I g rel1).
+  { split; [exact Hn1|]. split; [intros x y Hxy; apply Hrel1; exact Hxy|].
+    intros x y Hxy. apply t_step. apply Hrel1. exact Hxy. }
+  destruct (close_loop_total g rel1 HI) as (rel2 & E2). rewrite E2 in H. discriminate.
+Qed.
+
+(** ** The decision of [check_and_transform_grammar]
+
+    Order of the checks in the Rust code: non-productive non-terminals first, then unreachable
+    ones ([check_and_transform_grammar] passes an empty ignore set), then — for [GrammarType::LLK]
+    only — left recursion.  On success the LL branch goes on to left factoring, the LALR(1) branch
+    to augmentation; both are outside this property.  The payloads are the lists of names in
+    the order of the underlying sorted collections. *)
+
+Inductive check_result :=
+| Ok
+| NonProductive (l : list N)
+| Unreachable (l : list N)
+| LeftRecursive (l : list N)
+| ModelError.   (* fuel exhausted or Rust panic; impossible, see [check_decision_exact] *)
+
+Definition check_decision (is_ll : bool) (g : cfg) : check_result :=
+  match unproductive_nts g with
+  | None => ModelError
+  | Some (a :: l) => NonProductive (a :: l)
+  | Some [] =>
+      match unreachable_nts g with
+      | None => ModelError
+      | Some (a :: l) => Unreachable (a :: l)
+      | Some [] =>
+          if is_ll then
+            match left_recursive_nts g with
+            | None => ModelError
+            | Some (a :: l) => LeftRecursive (a :: l)
+            | Some [] => Ok
+            end
+          else Ok
+      end
+  end.
+
+Definition unproductive_nt (g : cfg) (a : N) : Prop := In a (nts g) /\ ~ productive g a.
+Definition unreachable_nt (g : cfg) (a : N) : Prop := In a (nts g) /\ ~ reachable g a.
+
+Theorem check_decision_exact is_ll g :
+  match check_decision is_ll g with
+  | NonProductive l =>
+      l <> [] /\ (forall a, In a l <-> unproductive_nt g a)
+  | Unreachable l =>
+      (forall a, ~ unproductive_nt g a) /\
+      l <> [] /\ (forall a, In a l <-> unreachable_nt g a)
+  | LeftRecursive l =>
+      is_ll = true /\ (forall a, ~ unproductive_nt g a) /\ (forall a, ~ unreachable_nt g a) /\
+      l <> [] /\ (forall a, In a l <-> left_rec g a)
+  | Ok =>
+      (forall a, ~ unproductive_nt g a) /\ (forall a, ~ unreachable_nt g a) /\
+      (is_ll = true -> forall a, ~ left_rec g a)
+  | ModelError => False
+  end.
+Proof.
+  unfold check_decision.
+  destruct (unproductive_total g) as (lu & Eu). rewrite Eu.
+  pose proof (productive_exact g lu Eu) as Hu.
+  destruct lu as [|a0 lu]; [|split; [discriminate|exact Hu]].
+  assert (HU : forall a, ~ unproductive_nt g a) by (intros a Ha; apply (Hu a); exact Ha).
+  destruct (unreachable_total g) as (lr & Er). rewrite Er.
+  pose proof (unreachable_exact g lr Er) as Hr.
+  destruct lr as [|a1 lr]; [|split; [exact HU|split; [discriminate|exact Hr]]].
+  assert (HR : forall a, ~ unreachable_nt g a) by (intros a Ha; apply (Hr a); exact Ha).
+  destruct is_ll; [|split; [exact HU|split; [exact HR|discriminate]]].
+  destruct (left_recursive_nts g) as [ll|] eqn:El.
+  - pose proof (leftrec_exact g ll El) as Hl.
+    destruct ll as [|a2 ll].
+    + split; [exact HU|split; [exact HR|]]. intros _ a Ha. apply (Hl a). exact Ha.
+    + split; [reflexivity|]. split; [exact HU|]. split; [exact HR|]. split; [discriminate|exact Hl].
+  - apply left_recursive_None in El. apply (HU (start g)).
+    split; [apply start_in_nts|apply no_prods_unproductive; exact El].
+Qed.
+
+Corollary check_decision_no_error is_ll g : check_decision is_ll g <> ModelError.
+Proof.
+  pose proof (check_decision_exact is_ll g) as H. intros E. rewrite E in H. exact H.
+Qed.
+
+Lemma nonempty_ex (l : list N) : l <> [] -> exists a, In a l.
+Proof. destruct l as [|a l]; [congruence|]. intros _. exists a. left. reflexivity. Qed.
+
+Corollary check_nonproductive_iff is_ll g :
+  (exists l, check_decision is_ll g = NonProductive l) <-> (exists a, unproductive_nt g a).
+Proof.
+  pose proof (check_decision_exact is_ll g) as H. split.
+  - intros (l & E). rewrite E in H. destruct H as (Hne & Hl).
+    destruct (nonempty_ex l Hne) as (a & Ha). exists a. apply Hl. exact Ha.
+  - intros (a & Ha). destruct (check_decision is_ll g) as [|l|l|l|]; try (exfalso; tauto);
+      try (exfalso; apply (proj1 H a Ha)); try (exfalso; apply (proj1 (proj2 H) a Ha)); eauto.
+Qed.
+
+Corollary check_unreachable_iff is_ll g :
+  (exists l, check_decision is_ll g = Unreachable l) <->
+  (forall a, ~ unproductive_nt g a) /\ (exists a, unreachable_nt g a).
+Proof.
+  pose proof (check_decision_exact is_ll g) as H. split.
+  - intros (l & E). rewrite E in H. destruct H as (HU & Hne & Hl). split; [exact HU|].
+    destruct (nonempty_ex l Hne) as (a & Ha). exists a. apply Hl. exact Ha.
+  - intros (HU & a & Ha). destruct (check_decision is_ll g) as [|l|l|l|]; eauto; exfalso.
+    + apply (proj1 (proj2 H) a Ha).
+    + destruct H as (Hne & Hl). destruct (nonempty_ex l Hne) as (b & Hb).
+      apply (HU b). apply Hl. exact Hb.
+    + apply (proj1 (proj2 (proj2 H)) a Ha).
+    + exact H.
+Qed.
+
+Corollary check_leftrec_iff is_ll g :
+  (exists l, check_decision is_ll g = LeftRecursive l) <->
+  is_ll = true /\ (forall a, ~ unproductive_nt g a) /\ (forall a, ~ unreachable_nt g a) /\
+  (exists a, left_rec g a).
+Proof.
+  pose proof (check_decision_exact is_ll g) as H. split.
+  - intros (l & E). rewrite E in H. destruct H as (Hll & HU & HR & Hne & Hl).
+    repeat split; auto. destruct (nonempty_ex l Hne) as (a & Ha). exists a. apply Hl. exact Ha.
+  - intros (Hll & HU & HR & a & Ha).
+    destruct (check_decision is_ll g) as [|l|l|l|]; eauto; exfalso.
+    + apply (proj2 (proj2 H) Hll a Ha).
+    + destruct H as (Hne & Hl). destruct (nonempty_ex l Hne) as (b & Hb).
+      apply (HU b). apply Hl. exact Hb.
+    + destruct H as (_ & Hne & Hl). destruct (nonempty_ex l Hne) as (b & Hb).
+      apply (HR b). apply Hl. exact Hb.
+    + exact H.
+Qed.
+
+Corollary check_ok_iff is_ll g :
+  check_decision is_ll g = Ok <->
+  (forall a, ~ unproductive_nt g a) /\ (forall a, ~ unreachable_nt g a) /\
+  (is_ll = true -> forall a, ~ left_rec g a).
+Proof.
+  pose proof (check_decision_exact is_ll g) as H. split.
+  - intros E. rewrite E in H. exact H.
+  - intros (HU & HR & HL). destruct (check_decision is_ll g) as [|l|l|l|]; auto; exfalso.
+    + destruct H as (Hne & Hl). destruct (nonempty_ex l Hne) as (b & Hb).
+      apply (HU b). apply Hl. exact Hb.
+    + destruct H as (_ & Hne & Hl). destruct (nonempty_ex l Hne) as (b & Hb).
+      apply (HR b). apply Hl. exact Hb.
+    + destruct H as (Hll & _ & _ & Hne & Hl). destruct (nonempty_ex l Hne) as (b & Hb).
+      apply (HL Hll b). apply Hl. exact Hb.
+    + exact H.
+Qed.
+
+(** The payloads are strictly ascending (the Rust collections are sorted by name). *)
+Lemma filter_sorted (f : N -> bool) l : StronglySorted N.lt l -> StronglySorted N.lt (filter f l).
+Proof.
+  induction 1 as [|a l _ IH Hf]; simpl; [constructor|]. destruct (f a); [|exact IH].
+  constructor; [exact IH|]. apply Forall_forall. intros x Hx. apply filter_In in Hx as [Hx _].
+  rewrite Forall_forall in Hf. apply Hf. exact Hx.
+Qed.
+
+Lemma unproductive_as_filter (f : N -> bool) ns :
+  map fst (filter (fun nb : N * bool => negb (snd nb)) (combine ns (map f ns))) =
+  filter (fun a => negb (f a)) ns.
+Proof.
+  induction ns as [|n ns IH]; simpl; [reflexivity|]. destruct (f n); simpl; rewrite IH; reflexivity.
+Qed.
+
+Theorem payload_sorted is_ll g :
+  match check_decision is_ll g with
+  | NonProductive l | Unreachable l | LeftRecursive l => StronglySorted N.lt l
+  | _ => True
+  end.
+Proof.
+  assert (Hns : StronglySorted N.lt (nt_set g)) by apply to_set_sorted.
+  assert (Hu : forall l, unproductive_nts g = Some l -> StronglySorted N.lt l).
+  { unfold unproductive_nts. intros l. destruct (productive_vector g) as [rv|] eqn:E; [|discriminate].
+    destruct (productive_vector_spec g rv E) as (f & -> & _). intros H. injection H as <-.
+    rewrite unproductive_as_filter. apply filter_sorted. exact Hns. }
+  assert (Hr : forall l, unreachable_nts g = Some l -> StronglySorted N.lt l).
+  { unfold unreachable_nts. intros l. destruct (reachable_nts g); [|discriminate].
+    intros H. injection H as <-. apply filter_sorted. exact Hns. }
+  assert (Hl : forall l, left_recursive_nts g = Some l -> StronglySorted N.lt l).
+  { unfold left_recursive_nts. intros l. destruct (nullable_nts g); [|discriminate].
+    destruct (forallb _ (prods g)); [|discriminate].
+    destruct (iter_until _ (csw_round g _) []); [|discriminate].
+    destruct (iter_until _ (close_round _) _); [|discriminate].
+    intros H. injection H as <-. apply filter_sorted. exact Hns. }
+  unfold check_decision.
+  destruct (unproductive_nts g) as [[|a0 lu]|] eqn:Eu; [|apply Hu; reflexivity|exact I].
+  destruct (unreachable_nts g) as [[|a1 lr]|] eqn:Er; [|apply Hr; reflexivity|exact I].
+  destruct is_ll; [|exact I].
+  destruct (left_recursive_nts g) as [[|a2 ll]|] eqn:El; [exact I|apply Hl; reflexivity|exact I].
+Qed.
+
+(** ** Boolean checkers for the harness
+
+    Each checker takes the set that the real Rust function returned (translated to numbers,
+    in any order, duplicates allowed) and compares it with the model's set.  [true] therefore
+    certifies, by the [*_sound] theorems, that the Rust output is the mathematically defined
+    set — without trusting the transcription beyond the translation of the grammar. *)
+
+Definition opt_set_eqb (o : option (list N)) (claimed : list N) : bool :=
+  match o with Some l => set_eqb l claimed | None => false end.
+
+Definition nullable_check (g : cfg) (claimed : list N) : bool :=
+  opt_set_eqb (nullable_nts g) claimed.
+Definition unproductive_check (g : cfg) (claimed : list N) : bool :=
+  opt_set_eqb (unproductive_nts g) claimed.
+Definition reachable_check (g : cfg) (claimed : list N) : bool :=
+  opt_set_eqb (reachable_nts g) claimed.
+Definition unreachable_check (g : cfg) (claimed : list N) : bool :=
+  opt_set_eqb (unreachable_nts g) claimed.
+Definition leftrec_check (g : cfg) (claimed : list N) : bool :=
+  opt_set_eqb (left_recursive_nts g) claimed.
+
+(** [true] iff the Rust functions [calculate_nullable_non_terminals] and
+    [detect_left_recursive_non_terminals] panic on [g]. *)
+Definition nullable_panics (g : cfg) : bool := negb (has_prods g (start g)).
+
+Definition check_result_eqb (r1 r2 : check_result) : bool :=
+  match r1, r2 with
+  | Ok, Ok => true
+  | NonProductive a, NonProductive b => set_eqb a b
+  | Unreachable a, Unreachable b => set_eqb a b
+  | LeftRecursive a, LeftRecursive b => set_eqb a b
+  | _, _ => false
+  end.
+
+Definition decision_check (is_ll : bool) (g : cfg) (claimed : check_result) : bool :=
+  check_result_eqb (check_decision is_ll g) claimed.
+
+Lemma opt_set_eqb_true o c :
+  opt_set_eqb o c = true <-> exists l, o = Some l /\ forall a, In a l <-> In a c.
+Proof.
+  unfold opt_set_eqb. destruct o as [l|]; [|split; [discriminate|intros (l & E & _); discriminate]].
+  rewrite set_eqb_spec. split; [eauto|]. intros (l' & E & H). inversion E; subst. exact H.
+Qed.
+
+Theorem nullable_check_sound g c :
+  nullable_check g c = true -> forall a, In a c <-> nullable g a.
+Proof.
+  intros H a. apply opt_set_eqb_true in H as (l & E & H). rewrite <- H. apply (nullable_exact g l E).
+Qed.
+
+Theorem unproductive_check_iff g c :
+  unproductive_check g c = true <-> forall a, In a c <-> unproductive_nt g a.
+Proof.
+  unfold unproductive_check. rewrite opt_set_eqb_true. split.
+  - intros (l & E & H) a. rewrite <- H. apply (productive_exact g l E).
+  - intros H. destruct (unproductive_total g) as (l & E). exists l. split; [exact E|].
+    intros a. rewrite H. apply (productive_exact g l E).
+Qed.
+
+Theorem reachable_check_iff g c :
+  reachable_check g c = true <-> forall a, In a c <-> reachable g a.
+Proof.
+  unfold reachable_check. rewrite opt_set_eqb_true. split.
+  - intros (l & E & H) a. rewrite <- H. apply (reachable_exact g l E).
+  - intros H. destruct (reachable_total g) as (l & E). exists l. split; [exact E|].
+    intros a. rewrite H. apply (reachable_exact g l E).
+Qed.
+
+Theorem unreachable_check_iff g c :
+  unreachable_check g c = true <-> forall a, In a c <-> unreachable_nt g a.
+Proof.
+  unfold unreachable_check. rewrite opt_set_eqb_true. split.
+  - intros (l & E & H) a. rewrite <- H. apply (unreachable_exact g l E).
+  - intros H. destruct (unreachable_total g) as (l & E). exists l. split; [exact E|].
+    intros a. rewrite H. apply (unreachable_exact g l E).
+Qed.
+
+Theorem leftrec_check_sound g c :
+  leftrec_check g c = true -> forall a, In a c <-> left_rec g a.
+Proof.
+  intros H a. apply opt_set_eqb_true in H as (l & E & H). rewrite <- H. apply (leftrec_exact g l E).
+Qed.
+
+Theorem nullable_panics_spec g :
+  nullable_panics g = true <-> nullable_nts g = None /\ left_recursive_nts g = None.
+Proof.
+  unfold nullable_panics. rewrite negb_true_iff, has_prods_false.
+  rewrite nullable_nts_None, left_recursive_None. tauto.
+Qed.
+
+(** A claimed result passes [decision_check] iff it is the model's result up to the order of the
+    payload; by [check_decision_exact] the model's result is the specified one. *)
+Theorem decision_check_sound is_ll g claimed :
+  decision_check is_ll g claimed = true ->
+  match claimed with
+  | NonProductive l => forall a, In a l <-> unproductive_nt g a
+  | Unreachable l => (forall a, ~ unproductive_nt g a) /\ forall a, In a l <-> unreachable_nt g a
+  | LeftRecursive l =>
+      is_ll = true /\ (forall a, ~ unproductive_nt g a) /\ (forall a, ~ unreachable_nt g a) /\
+      forall a, In a l <-> left_rec g a
+  | Ok => (forall a, ~ unproductive_nt g a) /\ (forall a, ~ unreachable_nt g a) /\
+          (is_ll = true -> forall a, ~ left_rec g a)
+  | ModelError => False
+  end.
+Proof.
+  unfold decision_check. pose proof (check_decision_exact is_ll g) as H.
+  destruct (check_decision is_ll g) as [|l|l|l|], claimed as [|c|c|c|];
+    cbn [check_result_eqb]; try discriminate; intros E; try (pose proof (proj1 (set_eqb_spec _ _) E) as E'; clear E; rename E' into E).
+  - exact H.
+  - destruct H as (_ & H). intros a. rewrite <- E. apply H.
+  - destruct H as (HU & _ & H). split; [exact HU|]. intros a. rewrite <- E. apply H.
+  - destruct H as (Hll & HU & HR & _ & H). repeat split; auto; intros Ha.
+    + apply H. apply E. exact Ha.
+    + apply E. apply H. exact Ha.
+Qed.
+
+(** ** Examples *)
+
+(** [A: B A "x" | "y"; B: | "z";] — left recursion hidden behind the nullable [B].
+    A = 0, B = 1; "x" = 5, "y" = 6, "z" = 7. *)
+Definition g_hidden : cfg :=
+  mkCfg 0 [mkProd 0 [NT 1; NT 0; T 5]; mkProd 0 [T 6]; mkProd 1 []; mkProd 1 [T 7]]%N.
+
+Example g_hidden_nullable : nullable_nts g_hidden = Some [1%N].
+Proof. vm_compute. reflexivity. Qed.
+Example g_hidden_unproductive : unproductive_nts g_hidden = Some [].
+Proof. vm_compute. reflexivity. Qed.
+Example g_hidden_reachable : reachable_nts g_hidden = Some [0; 1]%N.
+Proof. vm_compute. reflexivity. Qed.
+Example g_hidden_leftrec : left_recursive_nts g_hidden = Some [0%N].
+Proof. vm_compute. reflexivity. Qed.
+Example g_hidden_ll : check_decision true g_hidden = LeftRecursive [0%N].
+Proof. vm_compute. reflexivity. Qed.
+Example g_hidden_lr : check_decision false g_hidden = Ok.
+Proof. vm_compute. reflexivity. Qed.
+Example g_hidden_left_rec : left_rec g_hidden 0.
+Proof. apply (leftrec_exact g_hidden [0%N] g_hidden_leftrec). left. reflexivity. Qed.
+
+(** Indirect left recursion (first grammar of the Rust unit test):
+    [A: B "r"; B: C "d"; C: A "t";] *)
+Definition g_indirect : cfg :=
+  mkCfg 0 [mkProd 0 [NT 1; T 5]; mkProd 1 [NT 2; T 6]; mkProd 2 [NT 0; T 7]]%N.
+
+Example g_indirect_leftrec : left_recursive_nts g_indirect = Some [0; 1; 2]%N.
+Proof. vm_compute. reflexivity. Qed.
+(** ... and it is rejected as non-productive before left recursion is ever looked at. *)
+Example g_indirect_ll : check_decision true g_indirect = NonProductive [0; 1; 2]%N.
+Proof. vm_compute. reflexivity. Qed.
+
+(** Indirect and hidden at once: [S: A "a" | "b"; A: N S "d" | "c"; N: ;] *)
+Definition g_both : cfg :=
+  mkCfg 0 [mkProd 0 [NT 1; T 5]; mkProd 0 [T 6]; mkProd 1 [NT 2; NT 0; T 7]; mkProd 1 [T 8];
+           mkProd 2 []]%N.
+Example g_both_ll : check_decision true g_both = LeftRecursive [0; 1]%N.
+Proof. vm_compute. reflexivity. Qed.
+
+(** An unproductive cycle [C: D; D: C;] and a non-terminal [E] without productions:
+    [S: C | "y" | E "y";]  S = 0, C = 1, D = 2, E = 3. *)
+Definition g_unproductive : cfg :=
+  mkCfg 0 [mkProd 0 [NT 1]; mkProd 0 [T 6]; mkProd 0 [NT 3; T 6]; mkProd 1 [NT 2];
+           mkProd 2 [NT 1]]%N.
+Example g_unproductive_set : unproductive_nts g_unproductive = Some [1; 2; 3]%N.
+Proof. vm_compute. reflexivity. Qed.
+Example g_unproductive_decision :
+  check_decision true g_unproductive = NonProductive [1; 2; 3]%N.
+Proof. vm_compute. reflexivity. Qed.
+
+(** Unreachable non-terminals: [S: "y"; U: "z" V; V: "z";] *)
+Definition g_unreachable : cfg :=
+  mkCfg 0 [mkProd 0 [T 6]; mkProd 1 [T 7; NT 2]; mkProd 2 [T 7]]%N.
+Example g_unreachable_set : unreachable_nts g_unreachable = Some [1; 2]%N.
+Proof. vm_compute. reflexivity. Qed.
+Example g_unreachable_decision : check_decision false g_unreachable = Unreachable [1; 2]%N.
+Proof. vm_compute. reflexivity. Qed.
+
+(** A nullable chain that needs several sweeps: [A: B; B: C; C: ;] *)
+Definition g_chain : cfg := mkCfg 0 [mkProd 0 [NT 1]; mkProd 1 [NT 2]; mkProd 2 []]%N.
+Example g_chain_nullable : nullable_nts g_chain = Some [0; 1; 2]%N.
+Proof. vm_compute. reflexivity. Qed.
+Example g_chain_ok : check_decision true g_chain = Ok.
+Proof. vm_compute. reflexivity. Qed.
+
+(** The start symbol has no production: the nullable / left-recursion functions panic, the
+    overall check reports the start symbol as non-productive. *)
+Definition g_nostart : cfg := mkCfg 0 [mkProd 1 [T 5]]%N.
+Example g_nostart_nullable : nullable_nts g_nostart = None.
+Proof. vm_compute. reflexivity. Qed.
+Example g_nostart_panics : nullable_panics g_nostart = true.
+Proof. vm_compute. reflexivity. Qed.
+Example g_nostart_decision : check_decision true g_nostart = NonProductive [0%N].
+Proof. vm_compute. reflexivity. Qed.
+
+(** The doc-test grammar of [calculate_nullable_non_terminals]:
+    S = 0, U = 1, V = 2, X = 3, Y = 4, Z = 5 (alphabetical). *)
+Definition g_doc : cfg :=
+  mkCfg 0 [mkProd 0 [NT 4]; mkProd 4 [NT 1; NT 5]; mkProd 4 [NT 3; T 5]; mkProd 4 [T 6];
+           mkProd 1 [NT 2]; mkProd 1 []; mkProd 3 [T 7]; mkProd 2 [NT 2; T 8]; mkProd 2 [T 8];
+           mkProd 5 []; mkProd 5 [NT 5; NT 3]]%N.
+Example g_doc_nullable : nullable_nts g_doc = Some [0; 1; 4; 5]%N.
+Proof. vm_compute. reflexivity. Qed.
+
+Example checkers_run :
+  nullable_check g_hidden [1; 1]%N = true /\ leftrec_check g_both [1; 0]%N = true /\
+  unproductive_check g_unproductive [3; 1; 2]%N = true /\
+  unreachable_check g_unreachable [2; 1]%N = true /\ reachable_check g_unreachable [0%N] = true /\
+  decision_check true g_both (LeftRecursive [1; 0]%N) = true /\
+  decision_check true g_both Ok = false.
+Proof. vm_compute. repeat split. Qed.
+
+Print Assumptions nullable_exact.
+Print Assumptions nullable_nts_None.
+Print Assumptions productive_exact.
+Print Assumptions unproductive_total.
+Print Assumptions reachable_exact.
+Print Assumptions unreachable_exact.
+Print Assumptions leftrec_exact.
+Print Assumptions left_recursive_None.
+Print Assumptions check_decision_exact.
+Print Assumptions check_ok_iff.
+Print Assumptions decision_check_sound.
+Print Assumptions nullable_panics_spec.
+Print Assumptions payload_sorted.
